@@ -16,6 +16,7 @@ What is regenerated (vocabulary of leaves: coq/theories/Impl/Dispatch.v):
                           leaves: an array view `'int%i' % bit_width`                    DFast
                                   read_rle_bit_packed_hybrid(.., NumpyIO(<buf>..), itemsize=k)   DGeneric <item size of buf's allocation> k
                                   np.zeros(..) and no decoder call                      DZeros
+  read_plain_boolean_gen  encoding.read_plain_boolean: count handed to read_bitpacked1, allocation of the output, returned slice
   v1_delta_alloc        core.read_data_page: (item size of the np.empty handed to delta_binary_unpack, its longval argument)
 Anything outside these shapes: fail closed (exit status 2, source location on stderr); the check then falls back to
 the pinned text + the correspondence run on the real page readers and records `translator_fallback`.
@@ -200,6 +201,79 @@ def read_plain(tree, fname):
     return block(fn.body, {}, {}, 1)
 
 
+ARITH = {ast.Add: "N.add", ast.Sub: "N.sub", ast.Mult: "N.mul", ast.FloorDiv: "N.div", ast.Mod: "N.modulo"}
+
+
+def arith(e, names, fname):
+    if isinstance(e, ast.Constant) and isinstance(e.value, int) and not isinstance(e.value, bool) and e.value >= 0:
+        return str(e.value)
+    if isinstance(e, ast.Name) and e.id in names:
+        return names[e.id]
+    if isinstance(e, ast.BinOp) and type(e.op) in ARITH:
+        return "(%s %s %s)" % (ARITH[type(e.op)], arith(e.left, names, fname), arith(e.right, names, fname))
+    if isinstance(e, ast.Call) and isinstance(e.func, ast.Name) and e.func.id == "len" and len(e.args) == 1 \
+            and ast.unparse(e.args[0]) in names:
+        return "(lenN %s)" % names[ast.unparse(e.args[0])]
+    fail(e, "unsupported arithmetic %s" % ast.unparse(e)[:60], fname)
+
+
+def read_plain_boolean(tree, fname):
+    """data = np.frombuffer(raw_bytes, dtype='uint8'); out = out or np.empty(<cap>, dtype=bool);
+       read_bitpacked1(NumpyIO(data), <count>, NumpyIO(out.view('uint8'))); return out[:<n>]
+       -> c_read_bitpacked1 raw <count> <cap>, first <n> values"""
+    fn = [n for n in tree.body if isinstance(n, ast.FunctionDef) and n.name == "read_plain_boolean"]
+    if len(fn) != 1:
+        raise Unsupported("%s: function read_plain_boolean not found exactly once" % fname)
+    fn = fn[0]
+    if [a.arg for a in fn.args.args] != ["raw_bytes", "count", "out"]:
+        fail(fn, "read_plain_boolean parameters changed", fname)
+    names = {"count": "count"}
+    bufs = {}          # python name -> "raw" | "out"
+    cap = cnt = sl = None
+    for s_ in fn.body:
+        if is_doc(s_):
+            continue
+        if isinstance(s_, ast.Assign) and len(s_.targets) == 1 and isinstance(s_.targets[0], ast.Name):
+            v, e = s_.targets[0].id, s_.value
+            src = ast.unparse(e)
+            if src in ("np.frombuffer(raw_bytes, dtype='uint8')", "np.frombuffer(raw_bytes, dtype=np.uint8)"):
+                bufs[v] = "raw"
+                continue
+            # out = out or np.empty(<cap>, dtype=bool)
+            if isinstance(e, ast.BoolOp) and isinstance(e.op, ast.Or) and len(e.values) == 2 and ast.unparse(e.values[0]) == "out":
+                e = e.values[1]
+            if isinstance(e, ast.Call) and ast.unparse(e.func) == "np.empty" and len(e.args) == 1 \
+                    and [ast.unparse(k.value) for k in e.keywords if k.arg == "dtype"] in (["bool"], ["np.bool_"], ["'bool'"]):
+                cap = arith(e.args[0], names, fname)
+                bufs[v] = "out"
+                continue
+            if isinstance(e, (ast.BinOp, ast.Constant, ast.Name)):
+                names[v] = arith(e, names, fname)
+                continue
+        if isinstance(s_, ast.Expr) and isinstance(s_.value, ast.Call) and ast.unparse(s_.value.func) == "read_bitpacked1":
+            a = s_.value.args
+            if len(a) != 3 or s_.value.keywords:
+                fail(s_, "read_bitpacked1 call shape changed", fname)
+            i_ok = any(ast.unparse(a[0]) == "NumpyIO(%s)" % k for k, r in bufs.items() if r == "raw")
+            o_ok = any(ast.unparse(a[2]) in ("NumpyIO(%s.view('uint8'))" % k, 'NumpyIO(%s.view("uint8"))' % k) for k, r in bufs.items() if r == "out")
+            if not (i_ok and o_ok):
+                fail(s_, "read_bitpacked1 is not handed the page bytes / the output array", fname)
+            cnt = arith(a[1], names, fname)
+            continue
+        if isinstance(s_, ast.Return) and isinstance(s_.value, ast.Subscript) and isinstance(s_.value.slice, ast.Slice) \
+                and bufs.get(ast.unparse(s_.value.value)) == "out":
+            sli = s_.value.slice
+            if (sli.lower is not None and ast.unparse(sli.lower) != "0") or sli.step is not None or sli.upper is None:
+                fail(s_, "unsupported slice of the output", fname)
+            sl = arith(sli.upper, names, fname)
+            continue
+        fail(s_, "unsupported statement %s" % ast.unparse(s_)[:70], fname)
+    if None in (cap, cnt, sl):
+        raise Unsupported("%s: read_plain_boolean: allocation / decoder call / returned slice not all found" % fname)
+    return ("  match c_read_bitpacked1 raw %s %s with\n  | Ok d => Ok (takeN %s (d_vals d))\n  | OOB => OOB | UB => UB | Fuel => Fuel\n  end"
+            % (cnt, cap, sl))
+
+
 # ------------------------------------------------------------------------------------------------
 # core.py
 # ------------------------------------------------------------------------------------------------
@@ -337,6 +411,7 @@ def translate(enc_src, core_src, enc_name="encoding.py", core_name="core.py"):
     ct = ast.parse(core_src)
     tm = typemap(et, enc_name)
     rp = read_plain(et, enc_name)
+    rpb = read_plain_boolean(et, enc_name)
     fns = {n.name: n for n in ct.body if isinstance(n, ast.FunctionDef)}
     for need in ("read_data_page", "read_data_page_v2"):
         if need not in fns:
@@ -359,10 +434,11 @@ def translate(enc_src, core_src, enc_name="encoding.py", core_name="core.py"):
     out = []
     out.append("(* generated by translators/dispatch2coq.py from fastparquet/encoding.py and fastparquet/core.py - do not edit *)")
     out.append("From Coq Require Import NArith List Bool.")
-    out.append("From Pq Require Import Impl.Dispatch.")
+    out.append("From Pq Require Import Base.Bytes Base.Err Base.ListX Impl.CBitpack Impl.Dispatch.")
     out.append("Import ListNotations.\nOpen Scope bool_scope.\nOpen Scope N_scope.\n")
     out.append("Definition decode_typemap : list (N * N) := [%s].\n" % "; ".join("(%d, %d)" % p for p in tm))
     out.append("Definition read_plain_dispatch (type_ count width rawlen : N) (utf stat : bool) : pdec :=\n%s.\n" % rp)
+    out.append("Definition read_plain_boolean_gen (raw : bytes) (count : N) : res (list N) :=\n%s.\n" % rpb)
     out.append("Definition v1_index_dispatch (nonempty : bool) (bit_width : N) (selfmade : bool) : idec :=\n%s.\n" % v1)
     out.append("Definition v2_cat_dispatch (nonempty : bool) (bit_width : N) (selfmade : bool) : idec :=\n%s.\n" % v2c)
     out.append("Definition v2_deref_dispatch (nonempty : bool) (bit_width : N) (selfmade : bool) : idec :=\n%s.\n" % v2d)
